@@ -16,7 +16,7 @@ from lib import *
 
 MUTANTS = ["flush-le", "no-reset", "term-uncounted", "bypass-ge", "swallow-flush-error"]
 WDEPS = ["Writer.tla", "WriterProp.tla", "MC_Writer.tla"]
-INVS = ["NoViolation", "FillWithinCapacity", "NoAutoFlush", "PendIsBuffer"]
+INVS = ["NoViolation", "FillWithinCapacity", "NoAutoFlush", "PendIsBuffer", "CountersAgree"]
 
 
 def consts(cap, tlen, maxlen=None, faults=2, ops=0, bug="none", late=False, hist=False):
@@ -73,6 +73,46 @@ def mutants(res, tier, wd):
         raise ToolError("model mutants not refuted by TLC (properties vacuous?): %s" % missed)
     res.notes["model_mutants_refuted"] = {r["bug"]: r["hit"][0]["violated"] for r in rs}
     log("[E] model mutants refuted: %s" % ", ".join(r["bug"] for r in rs))
+
+
+def apalache(res, wd):
+    """All capacities: Apalache discharges the inductive invariant of the integer abstraction WriterInt.tla
+    (symbolic Cap, TLen, len in Nat); the variant that forgets to count the terminator must be refuted.
+    CountersAgree (checked by TLC on Writer.tla) ties the abstraction's shape invariant to the byte-level model."""
+    def go():
+        out = {"ok": False, "obligations": 2, "discharged": 0, "mutant_refuted": False}
+        src = os.path.join(SPEC, "WriterInt.tla")
+        od = os.path.join(wd, "apalache")
+        os.makedirs(od, exist_ok=True)
+        cmds = [["--cinit=ConstInit", "--inv=IndInv", "--length=0"],
+                ["--cinit=ConstInit", "--init=IndInit", "--inv=IndInv", "--length=1"]]
+        for i, c in enumerate(cmds):
+            rc, o = sh(["timeout", "600", "apalache-mc", "check"] + c + ["--out-dir=" + os.path.join(od, "o%d" % i), src], check=False, timeout=700)
+            if "EXITCODE: OK" in o and "no error" in o:
+                out["discharged"] += 1
+            else:
+                out["tail"] = o[-800:]
+        # mutant: terminator not counted in the fill count
+        mdir = os.path.join(od, "mut")
+        os.makedirs(mdir, exist_ok=True)
+        m = open(src).read().replace("written' = w0 + len + TLen", "written' = w0 + len")
+        open(os.path.join(mdir, "WriterInt.tla"), "w").write(m)
+        rc, o = sh(["timeout", "600", "apalache-mc", "check"] + cmds[1] + ["--out-dir=" + os.path.join(od, "o9"), os.path.join(mdir, "WriterInt.tla")], check=False, timeout=700)
+        out["mutant_refuted"] = "Found 1 error" in o or "violated" in o
+        out["ok"] = out["discharged"] == 2 and out["mutant_refuted"]
+        return out
+    r = tlc_cached("writerint-apalache", go, deps=["WriterInt.tla"])
+    if not r["ok"]:
+        # Apalache is optional tooling: its failure lowers the claim to "small constants", it is not a violation
+        res.notes["apalache"] = "NOT discharged: %s" % r
+        log("[E] Apalache inductive invariant NOT discharged (claim stays at the TLC grid): %s" % r.get("tail", ""))
+        return
+    res.cov["obligations"] = r["obligations"]
+    res.cov["discharged"] = r["discharged"]
+    res.cov["checker_cmd"] = "apalache-mc check --cinit=ConstInit [--init=IndInit] --inv=IndInv --length={0,1} spec/WriterInt.tla"
+    res.notes["apalache"] = "inductive invariant of WriterInt.tla discharged for all Cap, TLen, len in Nat (base + step); terminator-not-counted variant refuted"
+    log("[E] Apalache: inductive invariant of WriterInt.tla for ALL capacities: %d/%d obligations, mutant refuted (cached=%s)" % (
+        r["discharged"], r["obligations"], r.get("cached")))
 
 
 def gen_behaviours(res, tier, seed, wd):
@@ -185,6 +225,7 @@ def run(res, tier, seed, wd, replay=None):
     exhaustive(res, tier, wd)
     if tier == "thorough" or not os.environ.get("VERIF_SKIP_MUTANTS"):
         mutants(res, tier, wd)
+        apalache(res, wd)
     build_harness()
     # ---- A: TLC behaviours -> real code
     beh, nbeh = gen_behaviours(res, tier, seed, wd)
